@@ -748,6 +748,12 @@ func sigKey(sig string) (key, recv string, params []string, err error) {
 		if id, ok := t.(*ast.Ident); ok {
 			key = id.Name + "." + key
 		}
+		if se, ok := t.(*ast.SelectorExpr); ok {
+			// method of a type of another (external) package: "alias.Type.Method"
+			if x, ok := se.X.(*ast.Ident); ok {
+				key = x.Name + "." + se.Sel.Name + "." + key
+			}
+		}
 		if len(fd.Recv.List[0].Names) == 1 {
 			recv = fd.Recv.List[0].Names[0].Name
 		}
